@@ -16,7 +16,7 @@ Record observed_step := {
 
 Inductive keresult :=
 | KResp (enc : option packed) (max : option Z) (ver : Z * Z)
-| KKmipErr (reason : Z) (msg : list Z)        (* code points of str(e) *)
+| KKmipErr (reason : Z) (msg : list Z)        (* UTF-8 bytes of str(e) *)
 | KCrash.
 
 Record kcase := {
